@@ -23,5 +23,7 @@ def run(ctx):
         guards.g4_projective_add(ctx, cfg, prog)
         guards.g5_conversions(ctx, cfg, prog)
         guards.g8_equality(ctx, cfg, prog)
+        npred = formulas.rule_tower_predicates(ctx, cfg, prog)
+        ctx.floor('R-PRED tower predicates[%s]' % cfg, npred, 6)
         m = formulas.rule_curve(ctx, cfg, prog)
         ctx.floor('R-POLY curve formulas[%s]' % cfg, m, 12)
